@@ -26,6 +26,8 @@ def B(name):
 # ------------------------------------------------------------------ numeric builtins
 def _minmax(is_min):
     def fn(ip: Interp, args, kwargs, node):
+        if len(args) == 1 and isinstance(args[0], VMap) and is_min:
+            return ip.lib["__minkey__"](ip, args[0])
         if len(args) == 1:
             args = ip.iterate(args[0])
         if not args:
@@ -663,7 +665,31 @@ def s_us(ip, args, kwargs, node):
     return VInt(v.term)
 
 
-SPEC_LIB = {"dt_in_range": VBuiltin("dt_in_range", s_dt_in_range), "td_in_range": VBuiltin("td_in_range", s_td_in_range),
+def s_without(ip, args, kwargs, node):
+    """spec: the set s without element x (a new set value)"""
+    s, x = args
+    ref = ip.st.new_ref()
+    ip.st.heap[(ref, "set")] = z3.Store(ip.st.heap[(s.ref, "set")], term_of(x), z3.BoolVal(False))
+    return VSet(ref, s.elem)
+
+
+def s_with(ip, args, kwargs, node):
+    s, x = args
+    ref = ip.st.new_ref()
+    ip.st.heap[(ref, "set")] = z3.Store(ip.st.heap[(s.ref, "set")], term_of(x), z3.BoolVal(True))
+    return VSet(ref, s.elem)
+
+
+def s_appended(ip, args, kwargs, node):
+    """spec: the sequence s with x appended (a new sequence value)"""
+    s, x = args
+    ref = ip.st.new_ref()
+    ip.st.heap[(ref, "seq")] = z3.Concat(ip.st.heap[(s.ref, "seq")], z3.Unit(term_of(x)))
+    return VSeq(ref, s.elem)
+
+
+SPEC_LIB = {"without": VBuiltin("without", s_without), "with_": VBuiltin("with_", s_with),
+            "appended": VBuiltin("appended", s_appended),"dt_in_range": VBuiltin("dt_in_range", s_dt_in_range), "td_in_range": VBuiltin("td_in_range", s_td_in_range),
             "us": VBuiltin("us", s_us)}
 _orig_build = build_lib
 
